@@ -336,6 +336,35 @@ static Val loadVal(State &s, const Val &p, unsigned nbytes, unsigned w) {
     }
     uint64_t lo = 0, hi = o->size() - nbytes;
     if (hi > 32) offsetBounds(s, offE, hi, lo, hi);
+    if (allc && hi == lo) return loadBytes(s, o->base + lo, nbytes, w);
+    if (allc && hi - lo > 32) {
+        // Large all-concrete table (e.g. an array of 256 objects): case split by distinct loaded value, not by index.
+        // Stride: distance to the second-smallest feasible offset, accepted only if the solver proves every feasible offset is lo + k*stride.
+        uint64_t l = lo + 1, h = hi;
+        while (l < h) { uint64_t mid = l + (h - l) / 2; if (checkSat(s, z3::uge(offE, Z.bv_val(lo + 1, 64)) && z3::ule(offE, Z.bv_val(mid, 64)))) h = mid; else l = mid + 1; }
+        uint64_t stride = l - lo;
+        while (stride > 1) { // refine with counterexamples until every feasible offset is proven to be lo + k*stride
+            std::shared_ptr<z3::model> m2;
+            if (!checkSat(s, z3::urem(offE - Z.bv_val(lo, 64), Z.bv_val(stride, 64)) != Z.bv_val(0, 64), &m2)) break;
+            uint64_t v = 0; Z3_get_numeral_uint64(Z, m2->eval(offE, true), &v);
+            uint64_t a = stride, b = (v - lo) % stride; while (b) { uint64_t t = a % b; a = b; b = t; } stride = a;
+        }
+        if ((hi - lo) / stride > 4096) throw EngineError{"symbolic-offset load range too wide in " + objDesc(o)};
+        std::map<std::vector<uint8_t>, std::vector<uint64_t>> groups;
+        for (uint64_t off = lo; off <= hi; off += stride) groups[std::vector<uint8_t>(o->b.begin() + off, o->b.begin() + off + nbytes)].push_back(off);
+        if (groups.size() > 600) throw EngineError{"symbolic-offset load has too many distinct values in " + objDesc(o)};
+        uint64_t mine = modelU64(s, offE); z3::expr myCond = Z.bool_val(true); bool haveMine = false;
+        for (auto &g : groups) {
+            z3::expr c = Z.bool_val(false); bool isMine = false;
+            for (uint64_t off : g.second) { c = c || offE == Z.bv_val(off, 64); if (off == mine) isMine = true; }
+            if (isMine) { myCond = c; haveMine = true; continue; }
+            std::shared_ptr<z3::model> m2;
+            if (checkSat(s, c, &m2)) reexecFork(s, c, m2);
+        }
+        if (!haveMine) throw EngineError{"symbolic-offset load: model offset outside the stride lattice in " + objDesc(o)};
+        addPC(s, myCond); s.depth++;
+        return loadBytes(s, o->base + mine, nbytes, w);
+    }
     if (hi - lo > 2048) throw EngineError{"symbolic-offset load range too wide in " + objDesc(o)};
     z3::expr res = loadBytes(s, o->base + lo, nbytes, w).bv();
     for (uint64_t off = lo + 1; off <= hi; off++) res = z3::ite(offE == Z.bv_val(off, 64), loadBytes(s, o->base + off, nbytes, w).bv(), res);
